@@ -59,6 +59,24 @@ func roleOf(id int64) string {
 	return roles[id]
 }
 
+type autoRole struct{ substr, role string }
+
+var (
+	autoMu    sync.RWMutex
+	autoRoles []autoRole
+)
+
+// SetAutoRoles installs (point-name substring -> role) rules for goroutines the harness does not start itself.
+// Rules are tried in order. nil removes them.
+func SetAutoRoles(rules [][2]string) {
+	autoMu.Lock()
+	autoRoles = nil
+	for _, r := range rules {
+		autoRoles = append(autoRoles, autoRole{r[0], r[1]})
+	}
+	autoMu.Unlock()
+}
+
 // Roles returns a copy of the goroutine-id -> role map.
 func Roles() map[int64]string {
 	rolesMu.RLock()
@@ -167,6 +185,23 @@ func P(name string) {
 	st := state.Load()
 	id := GoID()
 	role := roleOf(id)
+	if role == "" {
+		// goroutines started by the code under test cannot name themselves: they are named by the first sync point
+		// they hit that matches an automatic role (e.g. the body of a processing loop)
+		autoMu.RLock()
+		for _, a := range autoRoles {
+			if strings.Contains(name, a.substr) {
+				role = a.role
+				break
+			}
+		}
+		autoMu.RUnlock()
+		if role != "" {
+			rolesMu.Lock()
+			roles[id] = role
+			rolesMu.Unlock()
+		}
+	}
 	st.mu.Lock()
 	st.hits[name]++
 	hit := st.hits[name]
